@@ -2,11 +2,12 @@
 (* Small-constant instances of Options.tla for exhaustive checking.           *)
 (* Cells c0, c1, c2 start with the valid contents v0, v1, v2, cell cb with    *)
 (* the invalid content; every option's default is c0.                         *)
-(*   A  one thread, 2 options x 2 values, blocks nested 3 deep  (block laws)  *)
-(*   B  two threads, 2 options x 2 values, one block each       (isolation)   *)
-(*   C  three threads, 1 option x 2 values, nesting 2/1/1       (isolation)   *)
+(*   A  one thread, 2 options x 2 values, blocks nested 3 deep, MaxMap 1      *)
+(*   A2 the same with MaxMap 2 (thorough tier)                                *)
+(*   B  two threads, 2 options x 2 values, one block each, MaxMap 2           *)
+(*   C  three threads, 1 option x 2 values, one block each, MaxMap 1          *)
 (*   H  one thread, 2 options, cell c1 mutable (the user may rewrite it at    *)
-(*      any time), blocks nested 2 deep                        (heap laws)    *)
+(*      any time), blocks nested 2 deep, MaxMap 1              (heap laws)    *)
 (*   T* thorough-tier variants with larger constants                          *)
 (* every configuration passes maps of up to MaxMap entries over the option    *)
 (* names + one unknown name and all cells (so also the invalid one).          *)
@@ -27,6 +28,13 @@ DoWrite == \E c \in Mutable, v \in Vals : UserWrite(c, v)
 Next == DoSpawn \/ DoDie \/ DoCall \/ DoSet \/ DoEnter \/ DoExit \/ DoWrite
 Spec == Init /\ [][Next]_vars
 
+(* `last` is a ghost outside the VIEW, so TLC evaluates an INVARIANT only with the action that first reaches a    *)
+(* state; the laws are therefore (also) checked as an action property, on *every* transition (e.g. every Call,  *)
+(* which never leaves its state)                                                                                 *)
+Laws == /\ TypeOK /\ HeapUntouched /\ CallIsolation /\ RejectAtomic /\ SetExact /\ Restore /\ UnnamedKept
+        /\ BlockTransparent /\ SavedIsEntry /\ NestedRestore /\ ThreadIsolation /\ FreshThreadDefaults
+LawsOnEveryStep == [][Laws']_vars
+
 Heap2 == (c0 :> v0) @@ (c1 :> v1) @@ (cb :> Bad)
 Heap3 == (c0 :> v0) @@ (c1 :> v1) @@ (c2 :> v2) @@ (cb :> Bad)
 Def1  == (o1 :> c0)
@@ -34,7 +42,7 @@ Def2  == (o1 :> c0) @@ (o2 :> c0)
 Def3  == (o1 :> c0) @@ (o2 :> c0) @@ (o3 :> c0)
 NestA == (t1 :> 3)
 NestB == (t1 :> 1) @@ (t2 :> 1)
-NestC == (t1 :> 2) @@ (t2 :> 1) @@ (t3 :> 1)
+NestC == (t1 :> 1) @@ (t2 :> 1) @@ (t3 :> 1)
 NestH == (t1 :> 2)
 NestS == (t1 :> 3) @@ (t2 :> 3) @@ (t3 :> 3)
 NestTA == (t1 :> 4)
